@@ -1,6 +1,7 @@
 package kv
 
 import (
+	"bytes"
 	"encoding/base64"
 	"errors"
 	"fmt"
@@ -37,6 +38,14 @@ func encrypt(key *[32]byte, message []byte) ([]byte, error) {
 	return append(nonce[:], c...), nil
 }
 
+// messageNonce is the nonce encrypt() uses for the message.
+func messageNonce(key *[32]byte, message []byte) ([]byte, error) {
+	combined := make([]byte, 0, len(message)+len(key))
+	combined = append(combined, message...)
+	combined = append(combined, key[:]...)
+	return nonce(combined, encryptNonceLen)
+}
+
 func decrypt(key *[32]byte, c []byte) ([]byte, error) {
 	if len(c) < encryptNonceLen {
 		return nil, fmt.Errorf("message too short, no nonce")
@@ -45,6 +54,15 @@ func decrypt(key *[32]byte, c []byte) ([]byte, error) {
 	var nonce [encryptNonceLen]byte
 	copy(nonce[:], c[:encryptNonceLen])
 	m, ok := secretbox.Open(nil, c[encryptNonceLen:], &nonce, key)
+	if ok && len(m) > 64-crypto_secretbox_zerobytes {
+		// The old implementation produced the same MAC but a different
+		// keystream after the first block, so its messages pass Open()
+		// and come out garbled. The nonce is a hash of message and key:
+		// it tells which of the two formats this is.
+		if n, err := messageNonce(key, m); err != nil || !bytes.Equal(n, nonce[:]) {
+			ok = false
+		}
+	}
 	if !ok {
 		// fallback to the old implementation
 		return crypto_secretbox_open_easy(c[24:], c[0:24], key)
